@@ -161,6 +161,101 @@ function FORIN(js, id, registered){
   return r;
 }
 
+// Function objects created at run time (spec/C14Fn.tla).  DYNREG makes the target (F) and the function object
+// of a case; OBSFN projects what the runtime shows of it.  RET is the body of the functions made from source
+// text: it reports the this value, the number of arguments and the arguments.  No expectation is computed here.
+// (the registry is private to the two functions: DUMP walks everything reachable from the global object)
+var DYNREG, OBSFN;
+function TAG(t){ return t === GLOBAL ? "g" : (ISOBJ(t) ? String(t.k) : typeof t); }
+function RET(t, a){ return TAG(t) + "|" + a.length + "|" + Array.prototype.slice.call(a).join(); }
+(function(){
+var DYN = {};
+DYNREG = function(id, base, fn){
+  var B, f;
+  try { B = (0,eval)(base); f = (function(F, src){ return eval(src); })(B, fn); }
+  catch (e) { DYN[id] = {err:(e instanceof Error) ? e.name : "value"}; return "throw"; }
+  DYN[id] = {B:B, f:f};
+  return typeof f;
+};
+OBSFN = function(id, names, mask){ return OBSFN1(DYN[id], names, mask); };
+})();
+function DESC(o, n){
+  var d = Object.getOwnPropertyDescriptor(o, n);
+  if (d === undefined) return {own:"none"};
+  if (Object.prototype.propertyIsEnumerable.call(o, n) !== d.enumerable) return {own:"propertyIsEnumerable disagrees"};
+  if ("get" in d || "set" in d) return {own:"acc", attrs:["-", ATTR(d.enumerable), ATTR(d.configurable)]};
+  return {own:"data", attrs:[ATTR(d.writable), ATTR(d.enumerable), ATTR(d.configurable)]};
+}
+function LENOF(f, beh){
+  var ld = Object.getOwnPropertyDescriptor(f, "length"), len = DESC(f, "length");
+  if (len.own === "data") {
+    len.val = ENC(ld.value);
+    if (!SAMEV(f.length, ld.value)) len.own = "[[Get]] disagrees with the descriptor";
+    if (beh) len.beh = BEHAVE(f, "length", ld, ["", ""]);
+  }
+  return len;
+}
+function SORTED(a){ a.sort(); return a; }
+function OBSFN1(e, names, mask){
+  if (e === undefined) return $stringify({ty:"not registered"});
+  if (e.err !== undefined) return $stringify({ty:"making it throws " + e.err});
+  var f = e.f, B = e.B, r = {}, k, i;
+  if (typeof f !== "function") return $stringify({ty:typeof f});
+  r.ty = typeof f; r.cls = CLS(f); r.proto = PATHOF(Object.getPrototypeOf(f)); r.ext = Object.isExtensible(f);
+  r.len = LENOF(f, true);
+  if (mask.indexOf(" prototype ") >= 0) r.prototype = {own:"n/a"};
+  else {
+    var pr = DESC(f, "prototype");
+    if (pr.own === "data") {
+      var P = f.prototype;
+      if (!ISOBJ(P)) pr.obj = {cls:typeof P};
+      else {
+        var c = DESC(P, "constructor"), en = [];
+        if (c.own === "data") c.same = P.constructor === f;
+        for (k in P) en.push(k);
+        pr.obj = {cls:CLS(P), proto:PATHOF(Object.getPrototypeOf(P)), ext:Object.isExtensible(P),
+                  names:SORTED(Object.getOwnPropertyNames(P)), ctor:c, forin:SORTED(en)};
+      }
+    }
+    r.prototype = pr;
+  }
+  if (mask.indexOf(" thr ") >= 0) r.thr = {own:"n/a"};
+  else {
+    var cd = Object.getOwnPropertyDescriptor(f, "caller"), ad = Object.getOwnPropertyDescriptor(f, "arguments");
+    var t = {caller:DESC(f, "caller"), arguments:DESC(f, "arguments")};
+    t.one = cd !== undefined && ad !== undefined && typeof cd.get === "function" && cd.get === cd.set && cd.get === ad.get && ad.get === ad.set;
+    if (cd !== undefined && typeof cd.get === "function")
+      t.fn = {cls:CLS(cd.get), proto:PATHOF(Object.getPrototypeOf(cd.get)), ext:Object.isExtensible(cd.get), len:LENOF(cd.get, false)};
+    else t.fn = {cls:"no getter"};
+    t.get = [T(function(){ f.caller; }), T(function(){ f.arguments; })];
+    t.put = [T(function(){ f.caller = 1; }), T(function(){ f.arguments = 1; })];
+    r.thr = t;
+  }
+  var own = Object.getOwnPropertyNames(f), missing = [], enumown = [], fi = [], refl = "ok";
+  for (i = 0; i < names.length; i++) {
+    var cnt = 0;
+    for (k = 0; k < own.length; k++) if (own[k] === names[i]) cnt++;
+    if (cnt !== 1 || !Object.prototype.hasOwnProperty.call(f, names[i])) missing.push(names[i]);
+  }
+  for (k = 0; k < own.length; k++) {
+    if (Object.prototype.propertyIsEnumerable.call(f, own[k])) enumown.push(own[k]);
+    var d = Object.getOwnPropertyDescriptor(f, own[k]);
+    if (d === undefined) refl = "no descriptor for own name " + own[k];
+    else if (typeof d.enumerable !== "boolean" || typeof d.configurable !== "boolean") refl = "incomplete descriptor for " + own[k];
+    else if (("get" in d || "set" in d) === ("value" in d || "writable" in d)) refl = "descriptor of " + own[k] + " is neither data nor accessor";
+  }
+  for (k in f) fi.push(k);
+  r.missing = missing; r.enumown = SORTED(enumown); r.forin = SORTED(fi); r.reflect = refl;
+  if (mask.indexOf(" call ") >= 0) r.call = "n/a";
+  else { try { var v = f("x", "y"); r.call = typeof v === "string" ? v : "a " + typeof v; } catch (x) { r.call = "throws " + ((x instanceof Error) ? x.name : "value"); } }
+  if (mask.indexOf(" new ") >= 0) r["new"] = "n/a";
+  else {
+    try { var o = new f("x"); r["new"] = (ISOBJ(B.prototype) && Object.getPrototypeOf(o) === B.prototype) ? "base" : "an object whose [[Prototype]] is " + PATHOF(Object.getPrototypeOf(o)); }
+    catch (x2) { r["new"] = (x2 instanceof Error) ? x2.name : "value"; }
+  }
+  return $stringify(r);
+}
+
 function OBSLINE(text){
   var l = $parse(text), r;
   if (l.k === "obj") r = OBSOBJ(l);
